@@ -5,8 +5,11 @@ package main
 import (
 	"bytes"
 	"compress/flate"
+	"compress/gzip"
+	"compress/zlib"
 	"encoding/base64"
 	"fmt"
+	"io"
 	"net/url"
 	"runtime"
 	"strings"
@@ -21,8 +24,22 @@ const c14Cap = 10 << 20 // "of the order of the 10 MB cap net/http places on for
 
 // bomb builds a DEFLATE+base64 payload that inflates to a valid-looking AuthnRequest/LogoutRequest with `pad` bytes of padding.
 func bomb(kind, place string, pad int, now time.Time) (payload string, inflated int) {
+	return bombIn("raw", kind, place, pad, now)
+}
+
+// bombIn: the same message in a raw DEFLATE stream (what the bindings specify), or wrapped as a zlib (RFC 1950) or
+// gzip (RFC 1952) container, which some stacks emit and lenient decoders accept
+func bombIn(container, kind, place string, pad int, now time.Time) (payload string, inflated int) {
 	var buf bytes.Buffer
-	w, _ := flate.NewWriter(&buf, 6)
+	var w io.WriteCloser
+	switch container {
+	case "zlib":
+		w, _ = zlib.NewWriterLevel(&buf, 6)
+	case "gzip":
+		w, _ = gzip.NewWriterLevel(&buf, 6)
+	default:
+		w, _ = flate.NewWriter(&buf, 6)
+	}
 	write := func(s string) { w.Write([]byte(s)); inflated += len(s) }
 	padding := func() {
 		chunk := bytes.Repeat([]byte(" "), 1<<20)
@@ -87,64 +104,69 @@ func runC14(c *Ctx) {
 			if !c.thorough() && mb >= 64 && place != "comment" && place != "after-root" {
 				continue
 			}
-			payload, inflated := bomb("authn", place, mb<<20, now)
-			payloadL, _ := bomb("logout", place, mb<<20, now)
-			for _, e := range eps {
-				if stop {
-					break
+			for _, container := range []string{"raw", "zlib", "gzip"} {
+				if container != "raw" && place != "comment" && place != "after-root" {
+					continue
 				}
-				st := newStorage()
-				_ = st.Register(SPSpec{EntityID: spEntity, AppID: "app-1", ReqSigned: "-", Certs: []string{spKeys.B64}, Acs: acsFor("post"), Slo: []string{"https://sp.example.com/slo"}})
-				prov, err := newProvider(st, defaultIdpCfg())
-				if err != nil {
-					panic(err)
-				}
-				pl := payload
-				if e.kind == "logout" {
-					pl = payloadL
-				}
-				form := url.Values{"SAMLRequest": {pl}, "RelayState": {"rs"}}
-				req := HTTPReq{Path: e.path}
-				if e.transport == "query" {
-					req.Method, req.Query = "GET", form.Encode()
-				} else {
-					form.Set("SAMLEncoding", samlxml.EncodingDeflate)
-					req.Method, req.Body, req.CType = "POST", form.Encode(), "application/x-www-form-urlencoded"
-				}
-				runtime.GC()
-				var m0, m1 runtime.MemStats
-				runtime.ReadMemStats(&m0)
-				rep := serve(prov.HttpHandler(), req)
-				runtime.ReadMemStats(&m1)
-				alloc := int64(m1.TotalAlloc - m0.TotalAlloc)
-				d := classify(rep)
-				c.rep.Evaluations++
-				accepted := len(st.CallsOf("CreateAuthRequest")) > 0 || (d.Msg != nil && strings.HasSuffix(d.Msg.Status, ":Success"))
-				key := fmt.Sprintf("%s/%s/%dMiB", e.name, place, mb)
-				if inflated > c14Cap {
-					c.nontrivial(key)
-				}
-				c.hist("inflated-MiB", fmt.Sprint(mb))
-				c.hist("accepted", fmt.Sprint(accepted))
-				detail := map[string]interface{}{"endpoint": e.name, "placement": place, "inflated_bytes": inflated, "request_bytes": len(req.Query) + len(req.Body),
-					"total_alloc_bytes": alloc, "accepted": accepted, "reply_kind": d.Kind, "reply_code": rep.Code}
-				if c.rep.Evaluations%7 == 1 {
-					c.sample(detail)
-				}
-				// the fixed amount: a small multiple of the cap, independent of the inflated size, plus the request itself
-				budget := int64(16*c14Cap) + 8*int64(len(req.Query)+len(req.Body))
-				if alloc > budget {
-					c.issue(Issue{Kind: "violation", What: fmt.Sprintf("one request allocated %d MiB while decoding a payload inflating to %d MiB (budget %d MiB)", alloc>>20, inflated>>20, budget>>20),
-						Site: "xml.InflateAndDecode", Class: "unbounded-allocation:" + e.name, Detail: detail})
-					if mb >= 64 {
-						stop = true // do not escalate further once the bound is known to be violated
+				payload, inflated := bombIn(container, "authn", place, mb<<20, now)
+				payloadL, _ := bombIn(container, "logout", place, mb<<20, now)
+				for _, e := range eps {
+					if stop {
+						break
 					}
-				}
-				if inflated > c14Cap && accepted {
-					c.issue(Issue{Kind: "violation", What: fmt.Sprintf("request whose payload inflates to %d MiB was accepted", inflated>>20), Site: "xml.InflateAndDecode", Class: "oversized-accepted:" + e.name, Detail: detail})
-				}
-				if rep.Panicked {
-					c.issue(Issue{Kind: "violation", What: "panic: " + strings.SplitN(rep.PanicMsg, "\n", 2)[0], Site: "xml.InflateAndDecode", Class: "panic", Detail: detail})
+					st := newStorage()
+					_ = st.Register(SPSpec{EntityID: spEntity, AppID: "app-1", ReqSigned: "-", Certs: []string{spKeys.B64}, Acs: acsFor("post"), Slo: []string{"https://sp.example.com/slo"}})
+					prov, err := newProvider(st, defaultIdpCfg())
+					if err != nil {
+						panic(err)
+					}
+					pl := payload
+					if e.kind == "logout" {
+						pl = payloadL
+					}
+					form := url.Values{"SAMLRequest": {pl}, "RelayState": {"rs"}}
+					req := HTTPReq{Path: e.path}
+					if e.transport == "query" {
+						req.Method, req.Query = "GET", form.Encode()
+					} else {
+						form.Set("SAMLEncoding", samlxml.EncodingDeflate)
+						req.Method, req.Body, req.CType = "POST", form.Encode(), "application/x-www-form-urlencoded"
+					}
+					runtime.GC()
+					var m0, m1 runtime.MemStats
+					runtime.ReadMemStats(&m0)
+					rep := serve(prov.HttpHandler(), req)
+					runtime.ReadMemStats(&m1)
+					alloc := int64(m1.TotalAlloc - m0.TotalAlloc)
+					d := classify(rep)
+					c.rep.Evaluations++
+					accepted := len(st.CallsOf("CreateAuthRequest")) > 0 || (d.Msg != nil && strings.HasSuffix(d.Msg.Status, ":Success"))
+					key := fmt.Sprintf("%s/%s/%s/%dMiB", e.name, container, place, mb)
+					if inflated > c14Cap {
+						c.nontrivial(key)
+					}
+					c.hist("inflated-MiB", fmt.Sprint(mb))
+					c.hist("accepted", fmt.Sprint(accepted))
+					detail := map[string]interface{}{"endpoint": e.name, "container": container, "placement": place, "inflated_bytes": inflated, "request_bytes": len(req.Query) + len(req.Body),
+						"total_alloc_bytes": alloc, "accepted": accepted, "reply_kind": d.Kind, "reply_code": rep.Code}
+					if c.rep.Evaluations%7 == 1 {
+						c.sample(detail)
+					}
+					// the fixed amount: a small multiple of the cap, independent of the inflated size, plus the request itself
+					budget := int64(16*c14Cap) + 8*int64(len(req.Query)+len(req.Body))
+					if alloc > budget {
+						c.issue(Issue{Kind: "violation", What: fmt.Sprintf("one request allocated %d MiB while decoding a payload inflating to %d MiB (budget %d MiB)", alloc>>20, inflated>>20, budget>>20),
+							Site: "xml.InflateAndDecode", Class: "unbounded-allocation:" + e.name, Detail: detail})
+						if mb >= 64 {
+							stop = true // do not escalate further once the bound is known to be violated
+						}
+					}
+					if inflated > c14Cap && accepted {
+						c.issue(Issue{Kind: "violation", What: fmt.Sprintf("request whose payload inflates to %d MiB was accepted", inflated>>20), Site: "xml.InflateAndDecode", Class: "oversized-accepted:" + e.name, Detail: detail})
+					}
+					if rep.Panicked {
+						c.issue(Issue{Kind: "violation", What: "panic: " + strings.SplitN(rep.PanicMsg, "\n", 2)[0], Site: "xml.InflateAndDecode", Class: "panic", Detail: detail})
+					}
 				}
 			}
 		}
